@@ -38,7 +38,7 @@ static void srccb(int kind, void *ds, void *ctxt, uint32_t view, long result, ui
   else if(kind==1){ tl_view=view; tl_cur=aux; tl_ev=atomic_load(&s->ev_runs); tl_cc=atomic_load(&s->cancel_runs); }
   else tr("SI %d %u %d %d %ld %u %d %d\n", det_phase, tl_view, (int)(tl_cur&3), (int)((tl_cur>>31)&1), result, view, atomic_load(&s->ev_runs)-tl_ev, atomic_load(&s->cancel_runs)-tl_cc); }
 static void fire(struct S *s){ // make one more event available
-  switch(s->kind){ case 0: dispatch_source_merge_data(s->ds,1); break; case 2: { char c=1; if(write(s->p[1],&c,1)){} break; } case 4: kill(getpid(),SIGUSR2); break; default: break; } }
+  switch(s->kind){ case 0: dispatch_source_merge_data(s->ds,1); break; case 2: { char c=1; if(s->p[1]>=0 && write(s->p[1],&c,1)){} break; } case 4: kill(getpid(),SIGUSR2); break; default: break; } }
 static void ev(void *c){ struct S *s=c; if(atomic_fetch_add(&s->ev_inside,1)) fail("event handler on two threads at once: kind/scenario",s->kind,s->scen,0);
   if(dispatch_get_specific(&qkey)!=s) fail("event handler not on the target queue: kind/scenario",s->kind,s->scen,0);
   atomic_fetch_add(&s->ev_runs,1);
@@ -59,7 +59,7 @@ static void one(int kind, int scen){ struct S *s=calloc(1,sizeof *s); s->kind=ki
     case 2: s->ds=dispatch_source_create(DISPATCH_SOURCE_TYPE_READ,(uintptr_t)s->p[0],0,s->q); break;
     case 3: s->ds=dispatch_source_create(DISPATCH_SOURCE_TYPE_WRITE,(uintptr_t)s->p[1],0,s->q); break;
     default: s->ds=dispatch_source_create(DISPATCH_SOURCE_TYPE_SIGNAL,SIGUSR2,0,s->q); break; }
-  dispatch_source_set_event_handler_f(s->ds,ev); if(scen<6) dispatch_source_set_cancel_handler_f(s->ds,ch); /* cancel_and_wait requires a source without cancel handler */ dispatch_set_context(s->ds,s);
+  dispatch_source_set_event_handler_f(s->ds,ev); if(scen<6 || scen==9) dispatch_source_set_cancel_handler_f(s->ds,ch); /* cancel_and_wait requires a source without cancel handler */ dispatch_set_context(s->ds,s);
   if(scen==2) dispatch_source_set_registration_handler_f(s->ds,regh);
   if(scen==7 || scen==8){ // never activated: (7) cancel, then cancel_and_wait; (8) cancel_and_wait alone. Both return and leave the cancelled, never-fired source
     if(scen==7) dispatch_source_cancel(s->ds);
@@ -84,6 +84,8 @@ static void one(int kind, int scen){ struct S *s=calloc(1,sizeof *s); s->kind=ki
       break; }
   case 6: { for(int i=0;i<10;i++) fire(s); dispatch_source_cancel(s->ds); dispatch_source_cancel(s->ds); dispatch_source_cancel_and_wait(s->ds);
       before=atomic_load(&s->ev_runs); for(int i=0;i<5;i++) fire(s); usleep(20000); if(atomic_load(&s->ev_runs)!=before) fail("event handler ran after dispatch_source_cancel_and_wait returned: kind",kind,0,0); break; }
+  case 9: { // the peer hangs up while the source is active (EPOLLHUP: the library unregisters the descriptor on its own and delivers a last event), then cancel from this thread
+      for(int i=0;i<3;i++) fire(s); close(s->p[1]); s->p[1]=-1; usleep(500+rnd()%3000); dispatch_source_cancel(s->ds); if(rnd()%2) dispatch_source_cancel(s->ds); break; }
   default: break; }
   // convergence
   for(int w=0; w<5000 && scen!=6 && atomic_load(&s->cancel_runs)==0; w++) usleep(1000);
@@ -93,7 +95,7 @@ static void one(int kind, int scen){ struct S *s=calloc(1,sizeof *s); s->kind=ki
   if(atomic_load(&s->ev_after_ch)) fail("an event handler invocation started after the cancel handler: kind/scenario",kind,scen,0);
   if(atomic_load(&s->ev_after_qcancel)) fail("event handler invoked after dispatch_source_cancel had returned on the target queue / in its own handler: kind/scenario/count",kind,scen,atomic_load(&s->ev_after_qcancel));
   if(scen==1 && atomic_load(&s->ev_runs)) fail("event handler ran although the source was cancelled before activation: kind",kind,0,0);
-  dispatch_release(s->ds); close(s->p[0]); close(s->p[1]); dispatch_release(s->q); /* s is leaked on purpose: late callbacks must not touch freed memory */ }
+  dispatch_release(s->ds); close(s->p[0]); if(s->p[1]>=0) close(s->p[1]); dispatch_release(s->q); /* s is leaked on purpose: late callbacks must not touch freed memory */ }
 // deterministic life cycles of a data-add source driven from one thread with quiescence between steps: the views seen by
 // wakeup / invoke2 are stable, so the decisions can be compared exactly with the model
 static void quiesce(struct S *s){ dispatch_sync(s->q,^{}); usleep(1500); dispatch_sync(s->q,^{}); }
@@ -142,7 +144,7 @@ static void quiet_cancel(int trials){ _dispatch_verif_yield_cb=q_ycb;
 int main(int argc,char**argv){ seed=argc>1?strtoull(argv[1],0,0):1; int rounds=argc>2?atoi(argv[2]):3; signal(SIGUSR2,SIG_IGN); signal(SIGPIPE,SIG_IGN); long n=0;
   trbuf=malloc(TRMAX); _dispatch_verif_source_cb=srccb;
   det_phase=1; for(int v=0; v<16 && !viol; v++){ det(v); n++; } for(int v=0; v<16 && !viol; v++){ det_timer(v); n++; } det_phase=0;
-  for(int r=0;r<rounds && !viol;r++) for(int kind=0;kind<5 && !viol;kind++) for(int scen=1;scen<=8 && !viol;scen++){
+  for(int r=0;r<rounds && !viol;r++) for(int kind=0;kind<5 && !viol;kind++) for(int scen=1;scen<=9 && !viol;scen++){ if(scen==9 && kind!=2) continue;
     if(kind==1 && scen==2) continue;      // a timer is armed only after its registration handler ran: nothing can be pending
     if(kind==3 && (scen==5||scen==6)) {}  // a write source on an empty pipe fires continuously: fine
     one(kind,scen); n++; }
